@@ -1,5 +1,6 @@
 import GeoVerif.Drv.Util
 import GeoVerif.Drv.C06
+import GeoVerif.Drv.C09
 import GeoVerif.Drv.C20
 import GeoVerif.Drv.C12
 import GeoVerif.Drv.C11
@@ -44,6 +45,7 @@ def handle (line : String) : String :=
     | ["gh", op] => handleGH op args
     | ["fl", op] => handleFL op args
     | ["io", op] => handleIO op args
+    | ["bd", op] => handleBD op args
     | _ => "bad-op"
 
 partial def loop (i o : IO.FS.Stream) : IO Unit := do
